@@ -118,14 +118,19 @@ func (m *Map[K, V]) Range(f func(key K, value V) bool) {
 	m.mutex.RLock()
 	defer m.mutex.RUnlock()
 	for key, value := range m.data {
-		m.mutex.RUnlock()
-		verifhook.Yield("map.Range.item", 0)
-		ok := f(key, value)
-		m.mutex.RLock()
-		if !ok {
+		if !m.callUnlocked(f, key, value) {
 			return
 		}
 	}
+}
+
+// callUnlocked calls f without the read lock and takes the lock again whichever way f ends: Range releases it on
+// its way out, and a second release (f panicked) would be the release of another reader's lock.
+func (m *Map[K, V]) callUnlocked(f func(key K, value V) bool, key K, value V) bool {
+	m.mutex.RUnlock()
+	defer m.mutex.RLock()
+	verifhook.Yield("map.Range.item", 0)
+	return f(key, value)
 }
 
 // Range2 calls f sequentially for each key and value present in the map. If f returns false, range stops the iteration.
